@@ -443,8 +443,8 @@ UNITARY_FNS = ["rectangular", "rectangular_phase_end", "rectangular_MZ", "rectan
 
 
 def plan(tier, seed, scale=1.0):
-    n = int((260 if tier == "quick" else 5000) * scale)
-    return [{"n": n, "timeout": 1700, "maxsize": 6 if tier == "quick" else 8} for _ in range(16)]
+    n = int((1000 if tier == "quick" else 25000) * scale)
+    return [{"n": n, "timeout": 6000, "maxsize": 6 if tier == "quick" else 8} for _ in range(16)]
 
 
 def run_case(case, rep, dec):
